@@ -4,6 +4,7 @@ import Batteries.Data.List.Perm
 import IndicatifModel.Proofs.Rows
 import IndicatifModel.Proofs.GenBridgeMulti
 import IndicatifModel.Proofs.RowsShown
+import IndicatifModel.Generated.FinishArms
 /-!
 # C02 — ordering level: slot bookkeeping of `MultiState` for every history of `insert*`/`remove`
 
@@ -529,5 +530,10 @@ theorem C02_finish_refreshes_slot (w : RW) (k : Nat) (f : Finish) (hk : k < w.ba
     apply barRows_congr
     rw [hd.2, e]
   · rw [h]; exact barRows_congr hb.symm
+
+/-- **the source as regenerated** (`tools/gen_finish.py`): `BarState::draw` forces the draw of a finished bar, so what a finished
+member has stored is what the screen shows — the hypothesis under which `mark_zombie` may keep the rows of a dropped first bar by
+counting its stored lines (`C02_stored_lines_kept_or_current`). -/
+theorem C02_source_finished_draws_forced : Generated.drawForcesFinished = true ∧ Generated.dropAsTranscribed = true := by decide
 
 end IndicatifModel.Rows
